@@ -52,6 +52,17 @@ type Contracts struct {
 	TypeInvs map[string]Clause
 	// Immutable: "pkg.Struct.field" written only during construction of its object.
 	Immutable map[string]bool
+	// Folds: finite-map sums  fold name(k K, v V) = weight  (weights must be non-negative)
+	Folds map[string]*Fold
+}
+
+// Fold is a sum over the entries of a finite map, axiomatised by ground instances at every map
+// operation (empty, insert, range step, monotonicity).
+type Fold struct {
+	Name         string
+	KName, VName string
+	KType, VType string
+	Body         Clause
 }
 
 type Pred struct {
@@ -200,7 +211,7 @@ func parseClause(text string) (Clause, error) {
 // ParseContracts reads every "//@" line of the given files (name -> text). Keys are fully
 // qualified: pkg.Func, pkg.Type.Method (pkg = last import path element; lib/go is "lib").
 func ParseContracts(files map[string]string) (*Contracts, error) {
-	cs := &Contracts{Funcs: map[string]*Contract{}, Containers: map[string]string{}, Preds: map[string]*Pred{}, TypeInvs: map[string]Clause{}, Immutable: map[string]bool{}}
+	cs := &Contracts{Funcs: map[string]*Contract{}, Containers: map[string]string{}, Preds: map[string]*Pred{}, TypeInvs: map[string]Clause{}, Immutable: map[string]bool{}, Folds: map[string]*Fold{}}
 	var names []string
 	for n := range files {
 		names = append(names, n)
@@ -238,6 +249,30 @@ func ParseContracts(files map[string]string) (*Contracts, error) {
 				cs.Funcs[key] = cur
 				cs.Order = append(cs.Order, key)
 				curGuard = nil
+			case "fold":
+				// fold hsum(k string, v string) = 8 + len(k) + len(v)
+				eqi := strings.Index(rest, "=")
+				lp, rp := strings.Index(rest, "("), strings.Index(rest, ")")
+				if eqi < 0 || lp < 0 || rp < lp || rp > eqi {
+					return nil, fail(fmt.Errorf("bad fold"))
+				}
+				fd := &Fold{Name: strings.TrimSpace(rest[:lp])}
+				ps := strings.Split(rest[lp+1:rp], ",")
+				if len(ps) != 2 {
+					return nil, fail(fmt.Errorf("fold takes (k K, v V)"))
+				}
+				kf, vf := strings.Fields(ps[0]), strings.Fields(ps[1])
+				if len(kf) != 2 || len(vf) != 2 {
+					return nil, fail(fmt.Errorf("fold parameter needs name and type"))
+				}
+				fd.KName, fd.KType, fd.VName, fd.VType = kf[0], kf[1], vf[0], vf[1]
+				cl, err := parseClause(rest[eqi+1:])
+				if err != nil {
+					return nil, fail(err)
+				}
+				fd.Body = cl
+				cs.Folds[fd.Name] = fd
+				cur, curGuard = nil, nil
 			case "immutable":
 				for _, f := range fields[1:] {
 					cs.Immutable[strings.TrimSuffix(f, ",")] = true
